@@ -876,6 +876,28 @@ func runC19(w *vx.W) {
 					nb, _ := wb2.Bytes()
 					checkVariant(ver, st, tgs, nb, st.msgs)
 					w.Fam("subfield-toggles/"+ver, 1)
+					// the two ways of switching a row off - writing 0 and emptying the cell - must give the same output
+					wb3, _ := xlsxlite.Open(st.data)
+					for _, i := range set {
+						wb3.ClearCell(wb3.Sheets[1], f.Subs[i].Row, colExample)
+					}
+					nb3, _ := wb3.Bytes()
+					in0, in3 := writeTemp(scratch, fmt.Sprintf("sub0-%d.xlsx", caseNo), nb), writeTemp(scratch, fmt.Sprintf("subE-%d.xlsx", caseNo), nb3)
+					d0, _, e0 := env.run(in0, ver)
+					d3, log3, e3 := env.run(in3, ver)
+					w.Eval(2)
+					rep := c19Replay{Workbook: ver + ".xlsx", Toggles: tgs, Form: "xlsx"}
+					if e0 == nil && e3 != nil {
+						w.Violation("fitgen-fails", fmt.Sprintf("workbook %s toggles %v with the cells emptied instead of set to 0: fitgen exits with %v: %s", ver, tgs, e3, trunc(lastLines(log3, 3), 300)), rep)
+					} else if e0 == nil {
+						if d := dirsEqual(d0, d3); d != "" {
+							w.Violation("zero-vs-empty-cell", fmt.Sprintf("workbook %s toggles %v: switching the rows off with 0 and by emptying the cells gives different output: %s", ver, tgs, d), rep)
+						}
+					}
+					os.RemoveAll(d0)
+					os.RemoveAll(d3)
+					os.Remove(in0)
+					os.Remove(in3)
 				}
 			}
 		}
